@@ -84,7 +84,11 @@ def run(ctx, chk):
     for (f, c), a in sorted(sites.items()):
         chk.instance('R-COLOUR', f, c, a['ok'], detail='%s (%d visits)' % (a['why'], a['n']), span=a['span'],
                      what='a %s value that is neither a documented colour name nor a 6-digit hex string can be stored: %s' % (a['kind'], a['why']))
-    chk.floor('colour insert sites', len(sites), 8)
+    # vacuity guard on what was examined, not on how many source sites store it (a shared helper
+    # turns eight sites into one): both kinds, and at least the eight documented forms (ANSI, AIXTERM,
+    # 256-colour, 24-bit; fg and bg) as abstract visits
+    chk.floor('colour kinds examined (fg, bg)', len({a['kind'] for a in sites.values()}), 2)
+    chk.floor('colour stores examined (abstract visits)', sum(a['n'] for a in sites.values()), 8)
 
     # ---- D4 I4: every dirty-row index is < lines ------------------------------------------
     dsites = {}
